@@ -842,8 +842,44 @@ fn c13(seed: u64, n: usize, out: &mut Out, oracle_only: bool) {
     let mut stats = GenStats { generated: 0, frontend_rejected: 0, frontend_panicked: 0, reject_kinds: Default::default() };
     let mut rows_total = 0u64;
     let mut values_total = 0u64;
-    for i in 0..n {
-        let c = gen_case(&mut rng, &schema, &mut stats, 0);
+    // next to the generated worlds: nested folds whose only outputs are counts, folds below @optional edges and
+    // below other folds that are empty for some rows (the defaults that compute_fold fills in), outputs several
+    // edges below an @optional
+    let nested_family = (n / 6).max(40);
+    for i in 0..(n + nested_family) {
+        let c = if i < n {
+            gen_case(&mut rng, &schema, &mut stats, 0)
+        } else {
+            let mut r2 = rng.fork();
+            let root = *r2.pick(&["Thing", "Item", "Box", "Gadget"]);
+            let e1 = *r2.pick(&["next(lo: 8)", "next(hi: 2)", "link", "parent", "next"]);
+            let e2 = *r2.pick(&["next", "link", "parent"]);
+            let e3 = *r2.pick(&["link", "next(hi: 3)", "parent"]);
+            let text = match r2.range(0, 5) {
+                0 => format!("query {{ {root} {{ id @output(name: \"r\") {e1} @fold {{ {e2} @fold @transform(op: \"count\") @output(name: \"c\") }} }} }}"),
+                1 => format!("query {{ {root} {{ id @output(name: \"r\") {e1} @fold {{ {e2} @fold {{ {e3} @fold @transform(op: \"count\") @output(name: \"c\") }} }} }} }}"),
+                2 => format!("query {{ {root} {{ id @output(name: \"r\") {e1} @optional {{ {e2} @fold @transform(op: \"count\") @output(name: \"c\") {{ {e3} @fold @transform(op: \"count\") @output(name: \"d\") }} }} }} }}"),
+                3 => format!("query {{ {root} {{ id @output(name: \"r\") {e1} @optional {{ {e2} {{ {e3} {{ name @output(name: \"deep\") link @fold @transform(op: \"count\") @output(name: \"c\") }} }} }} }} }}"),
+                4 => format!("query {{ {root} {{ {e1} @optional {{ {e2} @fold @transform(op: \"count\") @output(name: \"c\") {{ id @output(name: \"ids\") }} }} }} }}"),
+                _ => format!("query {{ {root} {{ id @output(name: \"r\") {e1} @fold @transform(op: \"count\") @output(name: \"c0\") {{ {e2} @optional {{ {e3} @fold @transform(op: \"count\") @output(name: \"c\") }} }} }} }}"),
+            };
+            let indexed = match trustfall_core::frontend::parse(&schema, &text) {
+                Ok(ix) => ix,
+                Err(e) => {
+                    out.oracle_fail("nested-fold template was rejected by the frontend", json!({"query": text}), json!({"error": format!("{e:?}")}));
+                    continue;
+                }
+            };
+            out.count("family:nested-fold-defaults");
+            engine::EngineCase {
+                dataset: world::gen_dataset(&mut r2, 9),
+                query_text: text,
+                indexed,
+                args: std::sync::Arc::new(Default::default()),
+                features: Default::default(),
+                var_hints: Default::default(),
+            }
+        };
         let input = case_input_json(&c);
         for f in &c.features {
             out.count(&format!("feat:{f}"));
